@@ -2,7 +2,7 @@ CHECKS["C11"] = dict(
     overlay_dirs={**KIT, "verifx/certspec": "harness/certspec", "verifx/c11": "harness/x/c11"},
     units=[unit("c11", "./verifx/c11", "^TestC11", shards=(8, 16), timeout=(900, 3400))],
     rule=("rapid-generated operation histories (2..60 ops; sign by the verifier or others, per-signer batch signing, combine, "
-          "relabel signer ids keeping the bytes, permute the labels among the contained signatures, present the same bytes and labels under the other scheme's signature type (ECDSA <-> EdDSA, as the wire format allows), "
+          "relabel signer ids keeping the bytes, cut the serialised bytes of a multi-signature into other pieces (equal chunks or arbitrary cuts, same labels), permute the labels among the contained signatures, present the same bytes and labels under the other scheme's signature type (ECDSA <-> EdDSA, as the wire format allows), "
           "messages shaped like a serialised batch, absent (nil) signatures, verify against any of 6 messages, batch-verify against the signed batch with "
           "entries changed/added/removed, build honest QC/TC/AggQC and re-verify them with altered view, hash or attested QC) "
           "for ecdsa/eddsa/bls12, n in {2,4,7}, cache capacity 1..8 and 100. Differential oracle: each request goes to an "
